@@ -22,12 +22,18 @@ def run(chk, program, tier):
     chk.rule('GEN-TAB', 'lookup tables == database enumerations, entry by entry')
     chk.rule('GEN-RAISE', 'raise/assert inventory of generated decoders')
     chk.rule('GEN-OFFSET', 'database Offset applied between scaling and range check')
+    chk.rule('HELP-DEC', 'residual of decode_number / decode_int at database constants == database rows')
+    chk.rule('NA-RANGE', 'the not-available code lies outside the database range')
+    chk.rule('HELP-STR', 'string helpers: skip = 8 x length byte; fixed strings take exactly their bits')
+    chk.rule('HELP-SIB', 'sibling helpers agree (float formats, date epoch, time decomposition)')
     off = R.gen_dec(chk, program)
     R.gen_tab(chk, program)
     R.gen_raise(chk, program)
     R.gen_offset(chk, program, off)
     from .. import rules_help
     rules_help.help_dec(chk, program)
+    rules_help.help_siblings(chk, program)
+    rules_help.help_strings(chk, program)
     chk.unit('programs', chk.units.get('decoders_matched', 0))
     chk.floor('decoders', chk.units.get('decoders_matched', 0), 410)
     chk.floor('field_rows', chk.units.get('field_rows', 0), 3000)
